@@ -109,7 +109,8 @@ fn basis_checks3(r: &mut Report, b: &SvdBasis3, d: &dyn Fn() -> String) {
         let e = if i == j { 1.0 } else { 0.0 };
         r.check((b.basis[i].dot(&b.basis[j]) - e).abs() <= E, "principal axes: the basis vectors are orthonormal", || format!("{} (b{}.b{} = {})", d(), i, j, b.basis[i].dot(&b.basis[j])));
     } }
-    r.check(b.sv[0] >= b.sv[1] && b.sv[1] >= b.sv[2] && b.sv[2] >= 0.0, "principal axes: singular values are non-negative and non-increasing", || format!("{} sv = {:?}", d(), b.sv));
+    let slack = E * (1.0 + b.sv[0]);
+    r.check(b.sv[0] + slack >= b.sv[1] && b.sv[1] + slack >= b.sv[2] && b.sv[2] >= 0.0, "principal axes: singular values are non-negative and non-increasing", || format!("{} sv = {:?}", d(), b.sv));
 }
 fn svd3(r: &mut Report) {
     let qs = [p3(1.0, 2.0, 3.0), p3(-0.5, 0.25, 4.0), p3(2.0, -3.0, 0.5)];
@@ -198,7 +199,7 @@ fn svd2(r: &mut Report) {
         let c = Point2::from(s / tw);
         r.check(cp2(&b.center, &c), "principal axes 2D: the centre is the (weighted) mean", d);
         r.check((b.basis[0].dot(&b.basis[0]) - 1.0).abs() <= E && (b.basis[1].dot(&b.basis[1]) - 1.0).abs() <= E && b.basis[0].dot(&b.basis[1]).abs() <= E, "principal axes 2D: the basis vectors are orthonormal", d);
-        r.check(b.sv[0] >= b.sv[1] && b.sv[1] >= 0.0, "principal axes 2D: singular values are non-negative and non-increasing", d);
+        r.check(b.sv[0] + E * (1.0 + b.sv[0]) >= b.sv[1] && b.sv[1] >= 0.0, "principal axes 2D: singular values are non-negative and non-increasing", d);
         for i in 0..2 {
             let along: f64 = pts.iter().enumerate().map(|(k, p)| { let wk = wr.map_or(1.0, |w| w[k]); (wk * b.basis[i].dot(&(p - c))).powi(2) }).sum::<f64>() / pts.len() as f64;
             r.check((b.basis_variances()[i] - along).abs() <= E * (1.0 + along), &nm("principal axes 2D: sv^2 / n equals the variance of the (weighted) centred points along each axis", *rank < 2), || format!("{} axis {}", d(), i));
